@@ -31,8 +31,11 @@ def cases(tier, rng):
             yield {"k": 601, "args": [[nr], [nc], list(dem), [-9999], [conn], [mode], pits], "call": {"dtype": rng.choice(["int32", "float32", "float64"])}, "group": f"exh-{nr}x{nc}"}
     for t in range(150 if tier == "quick" else 1500):
         nr, nc = rng.randint(2, 9), rng.randint(2, 9)
-        yield {"k": 600, "args": [[t]], "call": {"nr": nr, "nc": nc, "dtype": rng.choice(["float32", "float64"]), "seed": rng.randrange(10**9),
-                                                  "pn": rng.choice([0, 0.1]), "conn": rng.choice([4, 8]), "mode": rng.choice([0, 1])}, "group": "float-general"}
+        close = rng.random() < 0.4
+        yield {"k": 600, "args": [[t]], "call": {"nr": nr, "nc": nc, "dtype": rng.choice(["float64", "int32"]) if close else rng.choice(["float32", "float64"]),
+                                                  "seed": rng.randrange(10**9), "close": close, "from_dem": rng.random() < 0.7,
+                                                  "pn": rng.choice([0, 0.1]), "conn": rng.choice([4, 8]), "mode": rng.choice([0, 1])},
+               "group": "float-close" if close else "float-general"}
     for t in range(100 if tier == "quick" else 1000):
         nr, nc = rng.randint(2, 7), rng.randint(2, 7)
         n = nr * nc
@@ -70,14 +73,29 @@ def _float_case(call):
     n = nr * nc
     dt = call["dtype"]
     vals = np.array([rng.uniform(0, 50) if rng.random() < 0.8 else float(rng.randint(0, 5)) for _ in range(n)]).astype(dt)
+    close = call.get("close")
+    if close:      # elevations closer together than float32 can resolve (round-2 seed: a narrowing cast in from_dem)
+        if dt == "float64":
+            vals = np.array([1000.0 + rng.randint(0, 40) * 1e-7 for _ in range(n)], dtype=dt)
+        elif dt == "int32":
+            vals = np.array([20000000 + rng.randint(0, 12) for _ in range(n)], dtype=dt)
     nod = [rng.random() < call["pn"] for _ in range(n)]
-    arr = np.where(np.array(nod), np.array(-9999.0, dtype=dt), vals).reshape(nr, nc)
+    arr = np.where(np.array(nod), np.array(-9999, dtype=dt), vals).reshape(nr, nc)
     conn = call["conn"]
     mode = call["mode"]
-    f, d8 = pdem.fill_depressions(arr.copy(), nodata=-9999.0, connectivity=conn, outlets="min" if mode == 1 else "edge")
+    f, d8 = pdem.fill_depressions(arr.copy(), nodata=-9999, connectivity=conn, outlets="min" if mode == 1 else "edge")
     dem = [float(x) for x in arr.ravel()]
     fake = {"args": [[nr], [nc], dem, [-9999.0], [conn], [mode], []], "call": {}}
     res = oracle_core(fake, [[float(x) for x in f.ravel()], [int(x) for x in d8.ravel()]])
+    if res is None and call.get("from_dem") and conn == 8:
+        import pyflwdir
+        flw = pyflwdir.from_dem(arr.copy(), nodata=-9999, outlets="min" if mode == 1 else "edge")
+        got = [int(x) for x in flw.to_array().ravel()]
+        if got != _canon_d8([int(x) for x in d8.ravel()], nr, nc):
+            # the directions may legitimately differ among ties only if they still satisfy the property on THIS elevation
+            res2 = oracle_core(fake, [[float(x) for x in f.ravel()], [(247 if g == 247 else g) for g in got]])
+            if res2 is not None:
+                res = ("from_dem:" + res2[0], "from_dem: " + res2[1])
     return [[0]] if res is None else [[1], [res[0], res[1][:300]]]
 
 
